@@ -1,8 +1,86 @@
 import UvModel.DriverUtil
-/-! line-protocol driver modes for the text half of C18 (stub: no modes yet) -/
+import UvModel.Utf8
+import UvModel.Puny
+import UvModel.Wtf8
+/-! line-protocol driver for the text half of C18; the other side is harness/c18_text.c.
+    Ops (one per line; byte strings are hex, `-` = empty; UTF-16 units are 4-digit hex joined by `,`):
+      u8 <hex>                 uv__utf8_decode1 on [p, pe)        -> u8 <value|-1> <consumed>
+      ta <hex> <cap>           uv__idna_toascii into cap bytes     -> ta <rc> <cap bytes, untouched = aa>
+      w8 <hex>                 uv_wtf8_length_as_utf16 / to_utf16  -> w8 <len|-1> <units|->
+      u16 <z|n> <units> <alloc|N>  uv_utf16_length_as_wtf8 / uv_utf16_to_wtf8
+                                                                   -> u16 <len> <rc> <reported> <target bytes, untouched = aa>
+-/
 namespace Drivers.C18Text
 open UvModel.DriverUtil
 
-def modes : List (String × IO Unit) := []
+def hexVal (c : Char) : Option Nat :=
+  if '0' ≤ c ∧ c ≤ '9' then some (c.toNat - 48)
+  else if 'a' ≤ c ∧ c ≤ 'f' then some (c.toNat - 87)
+  else if 'A' ≤ c ∧ c ≤ 'F' then some (c.toNat - 55)
+  else none
+
+def parseHex2 : List Char → Option (List Nat)
+  | [] => some []
+  | a :: b :: r =>
+    match hexVal a, hexVal b, parseHex2 r with
+    | some x, some y, some l => some ((x * 16 + y) :: l)
+    | _, _, _ => none
+  | _ => none
+
+def parseBytes (s : String) : Option (List Nat) :=
+  if s = "-" then some [] else parseHex2 s.toList
+
+def parseUnits (s : String) : Option (List Nat) :=
+  if s = "-" then some []
+  else (s.splitOn ",").mapM fun w =>
+    match parseHex2 w.toList with
+    | some [hi, lo] => some (hi * 256 + lo)
+    | _ => none
+
+def hexDigit (n : Nat) : Char := if n < 10 then Char.ofNat (48 + n) else Char.ofNat (87 + n)
+def hex2 (b : Nat) : String := String.ofList [hexDigit (b / 16 % 16), hexDigit (b % 16)]
+def hex4 (u : Nat) : String := hex2 (u / 256) ++ hex2 (u % 256)
+def hexBytes (l : List Nat) : String := if l = [] then "-" else String.join (l.map hex2)
+def hexUnits (l : List Nat) : String := if l = [] then "-" else ",".intercalate (l.map hex4)
+
+def step (_ : Unit) : List String → Unit × List String
+  | [] => ((), [])
+  | ["u8", h] =>
+    match parseBytes h with
+    | some (a :: l) =>
+      let r := UvModel.Utf8.decode1 (a :: l)
+      ((), [s!"u8 {match r.1 with | some v => toString v | none => "-1"} {r.2}"])
+    | _ => ((), ["bad-op"])
+  | ["ta", h, cap] =>
+    match parseBytes h, cap.toNat? with
+    | some l, some cap =>
+      let r := UvModel.Puny.toascii l cap
+      let buf := r.2.out ++ List.replicate (cap - r.2.out.length) 0xaa
+      ((), [s!"ta {r.1} {hexBytes buf}"])
+    | _, _ => ((), ["bad-op"])
+  | ["w8", h] =>
+    match parseBytes h with
+    | some l =>
+      match UvModel.Wtf8.lengthAsUtf16 l with
+      | none => ((), ["w8 -1 -"])
+      | some n =>
+        match UvModel.Wtf8.toUtf16 l with
+        | some us => ((), [s!"w8 {n} {hexUnits us}"])
+        | none => ((), [s!"w8 {n} assert"])
+    | none => ((), ["bad-op"])
+  | ["u16", zs, us, tgt] =>
+    let z? : Option Bool := if zs = "z" then some true else if zs = "n" then some false else none
+    let t? : Option (Option Nat) := if tgt = "alloc" then some none else tgt.toNat?.map some
+    match z?, parseUnits us, t? with
+    | some z, some src, some t =>
+      let r := UvModel.Wtf8.toWtf8 z src t
+      let len := UvModel.Wtf8.lengthAsWtf8 z src
+      let size := (match t with | some n => n | none => len) + 1
+      let buf := r.out ++ List.replicate (size - r.out.length) 0xaa
+      ((), [s!"u16 {len} {r.rc} {r.reported} {hexBytes buf}"])
+    | _, _, _ => ((), ["bad-op"])
+  | _ => ((), ["bad-op"])
+
+def modes : List (String × IO Unit) := [("c18text", runLines () step)]
 
 end Drivers.C18Text
